@@ -89,6 +89,22 @@ func HSumIs(want int, xs ...int) bool {
 
 func HCountIs(n int, xs ...interface{}) bool { return len(xs) == n }
 
+// Multi-result host functions (C07 family R: how the RESULTS of a host call are stored).
+func HPair(x int) (int, string) { return x + 40, fmt.Sprint("s", x) }
+
+func HTriple(x int) (int, int, int) { return x + 1, x + 2, x + 3 }
+
+func HDivMod(a, b int) (int, int, error) {
+	if b == 0 {
+		return 0, 0, fmt.Errorf("div by zero")
+	}
+	return a / b, a % b, nil
+}
+
+func HDouble(x int) int { return x * 2 }
+
+func HStruct(x int) (struct{ A, B int }, bool) { return struct{ A, B int }{x, x + 1}, x > 0 }
+
 // Exports returns the symbol table that gives scripts a Show writing into buf.
 func Exports(buf *bytes.Buffer, steps *int) map[string]map[string]reflect.Value {
 	return map[string]map[string]reflect.Value{
@@ -97,6 +113,7 @@ func Exports(buf *bytes.Buffer, steps *int) map[string]map[string]reflect.Value 
 			"HAny": reflect.ValueOf(HAny), "HTwo": reflect.ValueOf(HTwo), "HVar": reflect.ValueOf(HVar), "HInt": reflect.ValueOf(HInt),
 			"HStr": reflect.ValueOf(HStr), "HInts": reflect.ValueOf(HInts), "HErr": reflect.ValueOf(HErr), "HFn": reflect.ValueOf(HFn), "HIntP": reflect.ValueOf(HIntP),
 			"HSumIs": reflect.ValueOf(HSumIs), "HCountIs": reflect.ValueOf(HCountIs),
+			"HPair": reflect.ValueOf(HPair), "HTriple": reflect.ValueOf(HTriple), "HDivMod": reflect.ValueOf(HDivMod), "HDouble": reflect.ValueOf(HDouble), "HStruct": reflect.ValueOf(HStruct),
 		},
 	}
 }
